@@ -122,3 +122,11 @@ def c08(tier, seed):
 
 
 CHECKS.update({"C18": c18, "C08": c08})
+
+
+def c13(tier, seed):
+    import c13 as m
+    return m.run(tier, seed)
+
+
+CHECKS.update({"C13": c13})
